@@ -1,5 +1,6 @@
 (* C13 — DAG: a task starts only after all its dependencies have finished successfully. *)
-From GO Require Import Base.Str Model.Tree Model.Dag Proofs.DagHold Proofs.DagInv Proofs.DagBuild Proofs.DagOnce.
+From GO Require Import Base.Str Model.Tree Model.Dag Proofs.DagHold Proofs.DagInv Proofs.DagBuild Proofs.DagOnce Proofs.AcceptSound.
+From GO Require Import Run.Check.
 
 (* Graph.Run as a transition system (Model/Dag.v): the scheduler loop, one thread per launched
    vertex, the semaphore, the Task lock, the helper goroutines, the environment (task outcomes,
@@ -94,4 +95,24 @@ Theorem C13_attempts_bounded :
     dsteps g cf (init_state []) ls = Some st -> d_thread st v = Running k -> (Z.of_nat k <= retries g v)%Z.
 Proof. exact attempts_bounded. Qed.
 Print Assumptions C13_attempts_bounded.
+
+(* ---- the tie, as a theorem about the checker ---- *)
+
+(* The executable acceptor that replays the observed events of the real Graph.Run (Run/Check.v,
+   extracted for the correspondence check) only moves along transitions: whatever trace it accepts
+   is a run of the transition system ending in the Return transition ... *)
+Theorem C13_accepted_trace_is_a_run :
+  forall g cf es s fin,
+    In s (accept_all g cf [init_state []] es) -> finish_run g cf s = Some fin ->
+    exists ls, dsteps g cf (init_state []) ls = Some fin /\ d_returned fin = true.
+Proof. exact accepted_trace_is_a_run. Qed.
+Print Assumptions C13_accepted_trace_is_a_run.
+
+(* ... and every state it reconstructs for the graph of a construction history satisfies the
+   invariant, so C13_deps_before, C14_*, C15_bound, ... apply to every accepted real run *)
+Theorem C13_accepted_states_invariant :
+  forall ops cf es s,
+    In s (accept_all (build_graph ops) cf [init_state []] es) -> Inv (build_graph ops) cf s.
+Proof. exact accepted_states_invariant. Qed.
+Print Assumptions C13_accepted_states_invariant.
 
